@@ -191,6 +191,7 @@ fn canon_msg(t: Option<ReplicaId>, m: &GossipMessage) -> CanonMsg {
         GossipMessage::TargetedDelta { source_replica, target_replica, deltas, epoch } => {
             (t.map(|x| x.0), 1, source_replica.0, target_replica.0, deltas.iter().map(tag_of).collect(), *epoch)
         }
+        GossipMessage::Heartbeat { source_replica, epoch } => (t.map(|x| x.0), 2, source_replica.0, 0, vec![], *epoch),
         _ => (t.map(|x| x.0), 9, 0, 0, vec![], 0),
     }
 }
@@ -200,7 +201,7 @@ fn main() {
     let args = &Args::parse(&a[1..]);
     let nkeys = args.get("keys", 24);
     let mut out = Out::new(&args.out, "C19", args.shards, HEADER);
-    out.nontrivial_rule = "one case = a HashRing built by new(join order) and changed by up to 4 add_node/remove_node calls (node ids sequential, 0-based, or arbitrary u64; vnodes 0-150; rf 0-6), observed after every step on a batch of keys (physical_nodes, version, ring vector incl. positions, get_replicas, get_replicas_with_rf), plus 2 routers (new / from_config) over the final ring with their routing tables and outbound queues; non-trivial = final ring has >= 2 nodes, >= 1 vnode each, and >= 1 key; distinct by canonical text of (vnodes, rf, join order, ops, keys)".into();
+    out.nontrivial_rule = "one case = a HashRing built by new(join order) and changed by up to 4 add_node/remove_node calls (node ids sequential, 0-based, congruent mod 64/2^32/2^63, arbitrary u64, or wide clusters of 63-200 nodes; vnodes 0-150 incl. with_defaults; rf 0-6 or around the cluster size; per-key rf up to u64::MAX; keys up to 4 KiB, 64 KiB in thorough), observed after every step on a batch of keys (physical_nodes, version, ring vector incl. positions, get_replicas, get_replicas_with_rf), plus 2 routers (new / from_config, built before or after the membership changes on the shared ring, peers edited by update_peer/remove_peer) with their routing tables and the output of a GossipState script (advance_epoch, queue_deltas, queue_deltas_broadcast, queue_heartbeat, drain_outbound, set_router), and in 1 case of 16 large queue_deltas batches (1..4000 updates, queue pre-filled up to its capacity); non-trivial = final ring has >= 2 nodes, >= 1 vnode each, and >= 1 key; distinct by canonical text of (vnodes, rf, join order, ops, keys)".into();
     let range: Vec<u64> = match args.only {
         Some(i) => vec![i],
         None => (0..args.n).collect(),
@@ -218,8 +219,12 @@ fn main() {
         let pool_kind = rng.gen_range(0..100);
         let pool: Vec<u64> = if pool_kind < 55 {
             (1..=7).collect()
-        } else if pool_kind < 70 {
+        } else if pool_kind < 66 {
             (0..=6).collect()
+        } else if pool_kind < 74 {
+            // ids congruent modulo 64 / 2^32 / 2^63 (hash-set / bit-mask shortcuts would confuse them)
+            let b = rng.gen_range(0..64u64);
+            vec![b, b + 64, b + 128, b + 64 * rng.gen_range(3..1000u64), b + (1u64 << 32), b + (1u64 << 63), b + (1u64 << 63) + 64]
         } else {
             let mut s = BTreeSet::new();
             while s.len() < 7 {
@@ -257,15 +262,53 @@ fn main() {
         // about 1 case in 16 drives LARGE batches through queue_deltas: a small cluster 1..=n
         // (so that one owner receives most of a batch), no membership changes
         let bigb = rng.gen_bool(1.0 / 16.0);
+        // about 1 case in 25: a WIDE cluster (around 64 / 128 / 200 nodes, 1-2 vnodes each)
+        let wide = !bigb && rng.gen_bool(0.04);
+        // about 1 case in 40: HashRing::with_defaults (150 vnodes, rf 3)
+        let defaults = !bigb && !wide && rng.gen_bool(0.025);
         let (vn, rf, init, ops) = if bigb {
             let n = rng.gen_range(2..=4u64);
             let mut init: Vec<u64> = (1..=n).collect();
             init.shuffle(&mut rng);
             (rng.gen_range(1..=8u32), rng.gen_range(1..=3u64), init, Vec::<Op>::new())
+        } else if wide {
+            let n = *[63u64, 64, 65, 127, 128, 129, 200].choose(&mut rng).unwrap();
+            let mut init: Vec<u64> = (1..=n).collect();
+            init.shuffle(&mut rng);
+            let mut ops = Vec::new();
+            for _ in 0..rng.gen_range(0..=2) {
+                let x = rng.gen_range(1..=n + 2);
+                ops.push(if rng.gen_bool(0.5) { Op::Add(x) } else { Op::Rem(x) });
+            }
+            let rf = *[0u64, 1, 3, 5, 63, 64, 65, n - 1, n, n + 1].choose(&mut rng).unwrap();
+            (rng.gen_range(1..=2u32), rf, init, ops)
+        } else if defaults {
+            let mut init = init;
+            init.truncate(3);
+            (150u32, 3u64, init, ops.into_iter().take(1).collect())
         } else {
             (vn, rf, init, ops)
         };
+        let nkeys = if wide { nkeys.min(6) } else { nkeys };
+        let longkey = args.get("longkey", 4097);
         let mut keys: Vec<(String, u64)> = (0..nkeys).map(|_| (gen_key(&mut rng), rng.gen_range(0..=7))).collect();
+        for k in keys.iter_mut() {
+            // key lengths around the SipHash block size and common buffer sizes, and far beyond
+            if rng.gen_bool(0.015) {
+                let mut len = *[63usize, 64, 65, 255, 256, 257, 1023, 1024, 1025, 4096, 4097].choose(&mut rng).unwrap();
+                if longkey > 4097 && rng.gen_bool(0.02) {
+                    len = longkey as usize - rng.gen_range(0..=2);
+                }
+                k.0 = (0..len).map(|j| (b'a' + ((j * 7 + len) % 26) as u8) as char).collect();
+                out.count("key:long (63..4097 bytes or more)");
+            }
+            // replication factors far above any cluster size
+            if rng.gen_bool(0.04) {
+                k.1 = *[64u64, 65, 255, 256, 1 << 32, u64::MAX - 1, u64::MAX].choose(&mut rng).unwrap();
+            } else if wide && rng.gen_bool(0.5) {
+                k.1 = *[63u64, 64, 65, 127, 128, 129, 199, 200, 201].choose(&mut rng).unwrap();
+            }
+        }
         // in part of the cases the per-key rf is the one AdaptiveReplicationManager chooses
         // (base_rf, or hot_key_rf for keys it saw accessed often)
         let adaptive = rng.gen_bool(0.35);
@@ -285,7 +328,7 @@ fn main() {
                 }
             }
             mgr.force_recalculate(1000);
-            for k in keys.iter_mut() {
+            for k in keys.iter_mut().filter(|k| k.1 <= 7) {
                 let r = mgr.get_rf_for_key(&k.0);
                 out.impl_checks += 1;
                 if r != base && r != hot {
@@ -298,13 +341,64 @@ fn main() {
         let keys = keys;
 
         // ---------------- run the implementation: ring stages
-        let mut ring = HashRing::new(init.iter().map(|x| ReplicaId::new(*x)).collect(), vn, rf as usize);
+        let mut ring = if defaults {
+            out.count("constructor:with_defaults");
+            HashRing::with_defaults(init.iter().map(|x| ReplicaId::new(*x)).collect())
+        } else {
+            HashRing::new(init.iter().map(|x| ReplicaId::new(*x)).collect(), vn, rf as usize)
+        };
+        // the ring every router shares (Arc<RwLock>): created now, changed through the lock by the
+        // same membership changes; routers built before the changes must see them
+        let shared = Arc::new(RwLock::new(ring.clone()));
+        let early = rng.gen_bool(0.5);
+        // ---------------- two routers (new / from_config), chosen from the initial membership;
+        // in half of the cases they are built now, BEFORE the membership changes
+        let fin_members: BTreeSet<u64> = ring.nodes().iter().map(|r| r.0).collect(); // initial members here
+        let mut rmakes: Vec<RMake> = Vec::new();
+        {
+            let me = if !fin_members.is_empty() && rng.gen_bool(0.85) {
+                *fin_members.iter().collect::<Vec<_>>().choose(&mut rng).unwrap().clone()
+            } else {
+                *pool.choose(&mut rng).unwrap()
+            };
+            let mut peers: Vec<u64> = match rng.gen_range(0..100) {
+                0..=64 => fin_members.iter().cloned().filter(|x| *x != me).collect(),
+                65..=79 => fin_members.iter().cloned().collect(), // knows itself too
+                80..=89 => pool.iter().cloned().filter(|x| *x != me).collect(), // knows non-members
+                _ => {
+                    let k = rng.gen_range(0..=pool.len());
+                    pool.choose_multiple(&mut rng, k).cloned().collect()
+                }
+            };
+            peers.shuffle(&mut rng);
+            rmakes.push(RMake::New { me, peers, selective: rng.gen_bool(0.75) });
+            let n = fin_members.len() as u64;
+            let seq_ring = n >= 1 && fin_members.iter().cloned().eq(1..=n);
+            let (rid, npeers) = if seq_ring && rng.gen_bool(0.8) {
+                (rng.gen_range(1..=n), n - 1)
+            } else {
+                (rng.gen_range(0..=7), rng.gen_range(0..=6))
+            };
+            let flags = rng.gen_range(0..100);
+            rmakes.push(RMake::Cfg { rid, npeers, selective: flags < 85, partitioned: flags < 90 || flags >= 95, enabled: flags < 95 || flags >= 98 });
+        }
+        let mut built: Vec<(GossipRouter, ReplicationConfig, GossipRouter)> = Vec::new();
+        if early {
+            built = rmakes.iter().map(|m| { let (r, c) = build_router(&shared, m); (r, c, build_router(&shared, m).0) }).collect();
+        }
+        drop(fin_members);
         let mut stages = vec![observe(&ring, &keys)];
         let mut members: Vec<BTreeSet<u64>> = vec![stages[0].nodes.iter().cloned().collect()];
         for o in &ops {
             match o {
-                Op::Add(x) => ring.add_node(ReplicaId::new(*x)),
-                Op::Rem(x) => ring.remove_node(ReplicaId::new(*x)),
+                Op::Add(x) => {
+                    ring.add_node(ReplicaId::new(*x));
+                    shared.write().unwrap().add_node(ReplicaId::new(*x));
+                }
+                Op::Rem(x) => {
+                    ring.remove_node(ReplicaId::new(*x));
+                    shared.write().unwrap().remove_node(ReplicaId::new(*x));
+                }
             }
             let st = observe(&ring, &keys);
             members.push(st.nodes.iter().cloned().collect());
@@ -371,6 +465,15 @@ fn main() {
                 out.violation(i, "get_primary / is_responsible / get_gossip_targets disagree with get_replicas", json!({"key": k, "replicas": reps, "primary": prim}));
             }
         }
+        // (2c) the plain accessors
+        {
+            let fin = members.last().unwrap();
+            out.impl_checks += 1;
+            if ring.node_count() != fin.len() || ring.replication_factor() != rf as usize
+                || !pool.iter().chain(fin.iter()).all(|n| ring.contains_node(ReplicaId::new(*n)) == fin.contains(n)) {
+                out.violation(i, "node_count / replication_factor / contains_node disagree with nodes()", json!({"members": fin, "node_count": ring.node_count(), "rf": ring.replication_factor()}));
+            }
+        }
         // (3) minimal disruption
         for (si, o) in ops.iter().enumerate() {
             let (before, after) = (&stages[si], &stages[si + 1]);
@@ -395,83 +498,192 @@ fn main() {
             }
         }
 
-        // ---------------- routers over the final ring
+        // ---------------- routers over the (shared, final) ring
         let fin_members: BTreeSet<u64> = members.last().unwrap().clone();
-        let shared = Arc::new(RwLock::new(ring.clone()));
-        let mut rmakes: Vec<RMake> = Vec::new();
-        {
-            let me = if !fin_members.is_empty() && rng.gen_bool(0.85) {
-                *fin_members.iter().collect::<Vec<_>>().choose(&mut rng).unwrap().clone()
-            } else {
-                *pool.choose(&mut rng).unwrap()
-            };
-            let mut peers: Vec<u64> = match rng.gen_range(0..100) {
-                0..=64 => fin_members.iter().cloned().filter(|x| *x != me).collect(),
-                65..=79 => fin_members.iter().cloned().collect(), // knows itself too
-                80..=89 => pool.iter().cloned().filter(|x| *x != me).collect(), // knows non-members
-                _ => {
-                    let k = rng.gen_range(0..=pool.len());
-                    pool.choose_multiple(&mut rng, k).cloned().collect()
-                }
-            };
-            peers.shuffle(&mut rng);
-            rmakes.push(RMake::New { me, peers, selective: rng.gen_bool(0.75) });
-            let n = fin_members.len() as u64;
-            let seq_ring = n >= 1 && fin_members.iter().cloned().eq(1..=n);
-            let (rid, npeers) = if seq_ring && rng.gen_bool(0.8) {
-                (rng.gen_range(1..=n), n - 1)
-            } else {
-                (rng.gen_range(0..=7), rng.gen_range(0..=6))
-            };
-            let flags = rng.gen_range(0..100);
-            rmakes.push(RMake::Cfg { rid, npeers, selective: flags < 85, partitioned: flags < 90 || flags >= 95, enabled: flags < 95 || flags >= 98 });
+        if !early {
+            built = rmakes.iter().map(|m| { let (r, c) = build_router(&shared, m); (r, c, build_router(&shared, m).0) }).collect();
+        }
+        out.impl_checks += 1;
+        if ring_vec(&shared.read().unwrap()) != ring_vec(&ring) {
+            out.violation(i, "ring changed through the shared lock differs from the same changes on a private copy", json!({"init": init, "ops": format!("{:?}", ops)}));
         }
         let ring_rf = rf;
         let mut rterms: Vec<String> = Vec::new();
         let mut rshow: Vec<Value> = Vec::new();
-        for m in &rmakes {
-            let (router, cfg) = build_router(&shared, m);
+        for (m, (mut router, cfg, mut router2)) in rmakes.iter().zip(built.into_iter()) {
             let me = router.my_replica().0;
+            // update_peer / remove_peer after construction (dynamic membership of the router)
+            let mut pops: Vec<(bool, u64, u64)> = Vec::new();
+            if rng.gen_bool(0.25) {
+                for j in 0..rng.gen_range(1..=3u64) {
+                    let id = if rng.gen_bool(0.6) && !fin_members.is_empty() {
+                        *fin_members.iter().collect::<Vec<_>>().choose(&mut rng).unwrap().clone()
+                    } else {
+                        *pool.choose(&mut rng).unwrap()
+                    };
+                    if rng.gen_bool(0.5) {
+                        pops.push((true, id, 50 + j));
+                        router.update_peer(ReplicaId::new(id), format!("p{}", 50 + j));
+                        router2.update_peer(ReplicaId::new(id), format!("p{}", 50 + j));
+                    } else {
+                        pops.push((false, id, 0));
+                        router.remove_peer(ReplicaId::new(id));
+                        router2.remove_peer(ReplicaId::new(id));
+                    }
+                }
+                out.count("router:update_peer/remove_peer after construction");
+            }
+            let mut originals: HashMap<u64, Value> = HashMap::new(); // tag -> the whole delta as queued
+            fn mkd(originals: &mut HashMap<u64, Value>, k: &str, t: u64, o: u64) -> ReplicationDelta {
+                let d = mk_delta(k, t, o);
+                originals.insert(t, serde_json::to_value(&d).unwrap());
+                d
+            }
             let nd = rng.gen_range(0..=10);
             let mut deltas: Vec<GDelta> = Vec::new();
             for j in 0..nd {
+                if j > 0 && rng.gen_bool(0.08) {
+                    let c = deltas.choose(&mut rng).unwrap().clone(); // the identical update queued twice
+                    deltas.push(c);
+                    continue;
+                }
                 let k = keys.choose(&mut rng).map(|k| k.0.clone()).unwrap_or_default();
                 let o = pick_origin(&mut rng, &mut out, &k, me, &ring, &fin_members);
                 deltas.push((k, 100 + j as u64, o));
             }
-            let nb = rng.gen_range(0..=3);
-            let mut tag = 200u64;
-            let mut batches: Vec<Vec<GDelta>> = Vec::new();
-            for _ in 0..nb {
-                let cnt = rng.gen_range(0..=4);
-                let mut b = Vec::new();
-                for _ in 0..cnt {
-                    tag += 1;
-                    let k = keys.choose(&mut rng).map(|k| k.0.clone()).unwrap_or_default();
-                    let o = pick_origin(&mut rng, &mut out, &k, me, &ring, &fin_members);
-                    b.push((k, tag, o));
-                }
-                batches.push(b);
-            }
             let peers = peer_table(&router);
             let selective = router.is_selective();
-            let table = router.route_deltas(deltas.iter().map(|(k, t, o)| mk_delta(k, *t, *o)).collect());
+            let sent: Vec<ReplicationDelta> = deltas.iter().map(|(k, t, o)| mkd(&mut originals, k, *t, *o)).collect();
+            let table = router.route_deltas(sent.clone());
+            let mut whole_ok = table.values().flatten().all(|d| serde_json::to_value(d).unwrap() == originals[&d.value.timestamp.time]);
             let mut ctable: Vec<(u64, Vec<(u64, u64)>)> = table.iter().map(|(t, ds)| (t.0, ds.iter().map(tag_of).collect())).collect();
             ctable.sort();
-            // outbound queue
-            let (router2, _) = build_router(&shared, m);
-            let mut gs = GossipState::with_router(cfg.clone(), router2);
-            for b in &batches {
-                gs.advance_epoch();
-                gs.queue_deltas(b.iter().map(|(k, t, o)| mk_delta(k, *t, *o)).collect());
+            // route_with_stats: same table, consistent statistics
+            {
+                let (t2, st) = router.route_with_stats(sent.clone());
+                let mut c2: Vec<(u64, Vec<(u64, u64)>)> = t2.iter().map(|(t, ds)| (t.0, ds.iter().map(tag_of).collect())).collect();
+                c2.sort();
+                let assignments: usize = c2.iter().map(|e| e.1.len()).sum();
+                out.impl_checks += 1;
+                if c2 != ctable || st.total_deltas != sent.len() || st.total_assignments != assignments || st.unique_targets != c2.len()
+                    || st.assignments_saved != (sent.len() * peers.len()).saturating_sub(assignments) {
+                    out.violation(i, "route_with_stats disagrees with route_deltas / its own table", json!({"table": ctable, "table_with_stats": c2, "stats": format!("{:?}", st)}));
+                }
             }
-            let mut queue: Vec<CanonMsg> = gs.outbound_queue.iter().map(|rm| canon_msg(rm.target, &rm.message)).collect();
-            queue.sort_by_key(|q| (q.5, q.0.unwrap_or(0))); // stable; per call (epoch) by target
+            // ---- the GossipState script
+            let router0 = rng.gen_bool(0.85);
+            let epoch0: u64 = if rng.gen_bool(0.9) { 0 } else { u64::MAX - rng.gen_range(0..=2) };
+            #[derive(Clone, Debug)]
+            enum Ev { Adv, D(Vec<GDelta>), B(Vec<GDelta>), H, Drain, Set }
+            let mut script: Vec<Ev> = Vec::new();
+            let mut tag = 200u64;
+            let mut have_router = router0;
+            for _ in 0..rng.gen_range(0..=7) {
+                let c = rng.gen_range(0..100);
+                if c < 25 {
+                    script.push(Ev::Adv);
+                } else if c < 70 || c >= 95 {
+                    let cnt = rng.gen_range(0..=4);
+                    let mut b: Vec<GDelta> = Vec::new();
+                    for _ in 0..cnt {
+                        if !b.is_empty() && rng.gen_bool(0.1) {
+                            let c = b.last().unwrap().clone();
+                            b.push(c);
+                            continue;
+                        }
+                        tag += 1;
+                        let k = keys.choose(&mut rng).map(|k| k.0.clone()).unwrap_or_default();
+                        let o = pick_origin(&mut rng, &mut out, &k, me, &ring, &fin_members);
+                        b.push((k, tag, o));
+                    }
+                    script.push(if c >= 95 { Ev::B(b) } else { Ev::D(b) });
+                } else if c < 80 {
+                    script.push(Ev::H);
+                } else if c < 88 {
+                    script.push(Ev::Drain);
+                } else if !have_router {
+                    script.push(Ev::Set);
+                    have_router = true;
+                } else {
+                    script.push(Ev::Adv);
+                }
+            }
+            let mut gs = if router0 { GossipState::with_router(cfg.clone(), router2) } else { GossipState::new(cfg.clone()) };
+            let mut spare = if router0 { None } else { Some(build_router(&shared, m).0) };
+            if let Some(sp) = spare.as_mut() {
+                for (up, id, a) in &pops {
+                    if *up { sp.update_peer(ReplicaId::new(*id), format!("p{}", a)) } else { sp.remove_peer(ReplicaId::new(*id)) }
+                }
+            }
+            gs.epoch = epoch0;
+            let owners = |k: &str| -> Vec<u64> { ids(&ring.get_replicas(k)).into_iter().filter(|x| *x != me).collect() };
+            let mut queue: Vec<CanonMsg> = Vec::new(); // everything drained, then the final queue
+            let mut wantq: Vec<CanonMsg> = Vec::new(); // what the property says must be there
+            let (mut cur_epoch, mut cur_router) = (epoch0, router0);
+            for ev in &script {
+                let before = gs.outbound_queue.len();
+                match ev {
+                    Ev::Adv => {
+                        gs.advance_epoch();
+                        cur_epoch = cur_epoch.saturating_add(1);
+                    }
+                    Ev::D(b) => {
+                        let ds: Vec<ReplicationDelta> = b.iter().map(|(k, t, o)| mkd(&mut originals, k, *t, *o)).collect();
+                        gs.queue_deltas(ds);
+                        if cur_router && selective {
+                            let mut w: BTreeMap<u64, Vec<(u64, u64)>> = BTreeMap::new();
+                            for (k, t, og) in b {
+                                for o in owners(k) {
+                                    w.entry(o).or_default().push((*t, *og));
+                                }
+                            }
+                            for (t, ds) in w {
+                                wantq.push((Some(t), 1, me, t, ds, cur_epoch));
+                            }
+                        } else if !b.is_empty() {
+                            wantq.push((None, 0, me, 0, b.iter().map(|d| (d.1, d.2)).collect(), cur_epoch));
+                        }
+                    }
+                    Ev::B(b) => {
+                        gs.queue_deltas_broadcast(b.iter().map(|(k, t, o)| mkd(&mut originals, k, *t, *o)).collect());
+                        if !b.is_empty() {
+                            wantq.push((None, 0, me, 0, b.iter().map(|d| (d.1, d.2)).collect(), cur_epoch));
+                        }
+                    }
+                    Ev::H => {
+                        gs.queue_heartbeat();
+                        wantq.push((None, 2, me, 0, vec![], cur_epoch));
+                    }
+                    Ev::Drain => {
+                        let dr = gs.drain_outbound();
+                        whole_ok &= dr.iter().filter_map(|rm| rm.message.clone().into_deltas()).flatten().all(|d| serde_json::to_value(&d).unwrap() == originals[&d.value.timestamp.time]);
+                        queue.extend(dr.iter().map(|rm| canon_msg(rm.target, &rm.message)));
+                        continue;
+                    }
+                    Ev::Set => {
+                        gs.set_router(spare.take().unwrap());
+                        cur_router = true;
+                    }
+                }
+                // the messages one call appended: HashMap order -> by target
+                if gs.outbound_queue.len() >= before {
+                    gs.outbound_queue[before..].sort_by_key(|rm| rm.target.map(|t| t.0).unwrap_or(0));
+                }
+            }
+            whole_ok &= gs.outbound_queue.iter().filter_map(|rm| rm.message.clone().into_deltas()).flatten().all(|d| serde_json::to_value(&d).unwrap() == originals[&d.value.timestamp.time]);
+            queue.extend(gs.outbound_queue.iter().map(|rm| canon_msg(rm.target, &rm.message)));
+            out.impl_checks += 1;
+            if !whole_ok {
+                out.violation(i, "a routed / queued delta is not the delta that was handed in (key, value, stamps, source compared as a whole)", json!({"router": format!("{:?}", m)}));
+            }
+            if gs.is_selective() != (cur_router && selective) || gs.router().is_some() != cur_router {
+                out.violation(i, "GossipState::is_selective / router() disagree with the router that was installed", json!({"router": format!("{:?}", m)}));
+            }
 
             // ---- oracles
             let peer_ids: BTreeSet<u64> = peers.iter().map(|p| p.0).collect();
             if let RMake::Cfg { rid, npeers, .. } = m {
-                if *rid >= 1 && *rid <= npeers + 1 {
+                if *rid >= 1 && *rid <= npeers + 1 && pops.is_empty() {
                     out.count("from_config:1-based member");
                     out.impl_checks += 1;
                     let want: Vec<(u64, u64)> = (1..=npeers + 1).filter(|x| x != rid).enumerate().map(|(j, id)| (id, j as u64)).collect();
@@ -480,19 +692,19 @@ fn main() {
                             json!({"replica_id": rid, "cluster_size": npeers + 1, "peer_ids_with_address_index": peers, "expected": want}));
                     }
                 } else {
-                    out.count("from_config:id outside 1..n");
+                    out.count("from_config:id outside 1..n / peers edited");
                 }
             }
             let knows_all = fin_members.iter().all(|x| *x == me || peer_ids.contains(x));
             let intended = match m {
                 RMake::New { .. } => knows_all,
                 // a from_config router of member rid in the cluster 1..n is meant to know everybody
-                RMake::Cfg { rid, npeers, .. } => {
+                RMake::Cfg { rid, npeers, .. } if pops.is_empty() => {
                     let n = fin_members.len() as u64;
                     n >= 1 && fin_members.iter().cloned().eq(1..=n) && *rid >= 1 && *rid <= n && *npeers == n - 1
                 }
+                _ => knows_all,
             };
-            let owners = |k: &str| -> Vec<u64> { ids(&ring.get_replicas(k)).into_iter().filter(|x| *x != me).collect() };
             if selective && intended {
                 out.count("router:selective, knows every member");
                 // the property: every owner of the key other than the SENDER (whatever replica
@@ -510,23 +722,12 @@ fn main() {
                         json!({"router": format!("{:?}", m), "members": fin_members, "rf": ring_rf, "vnodes": vn, "peers": peers,
                                "deltas": deltas, "table": ctable, "expected": want}));
                 }
-                // queue: per call, every owner other than the sender gets one targeted message with exactly its deltas
-                let mut wantq: Vec<CanonMsg> = Vec::new();
-                for (bi, b) in batches.iter().enumerate() {
-                    let mut w: BTreeMap<u64, Vec<(u64, u64)>> = BTreeMap::new();
-                    for (k, t, og) in b {
-                        for o in owners(k) {
-                            w.entry(o).or_default().push((*t, *og));
-                        }
-                    }
-                    for (t, ds) in w {
-                        wantq.push((Some(t), 1, me, t, ds, bi as u64 + 1));
-                    }
-                }
+                // everything that left the GossipState: per queue_deltas call every owner other than the
+                // sender gets one targeted message with exactly its deltas; broadcasts and heartbeats as queued
                 out.impl_checks += 1;
                 if wantq != queue {
                     out.violation(i, "queue_deltas does not hand each delta to exactly owners-minus-sender",
-                        json!({"router": format!("{:?}", m), "members": fin_members, "batches": batches, "queue": format!("{:?}", queue), "expected": format!("{:?}", wantq)}));
+                        json!({"router": format!("{:?}", m), "members": fin_members, "script": format!("{:?}", script), "queue": format!("{:?}", queue), "expected": format!("{:?}", wantq)}));
                 }
             } else if selective {
                 out.count("router:selective, partial knowledge");
@@ -547,6 +748,11 @@ fn main() {
                 if want != ctable {
                     out.violation(i, "broadcast routing table is not every known peer other than self", json!({"router": format!("{:?}", m), "table": ctable, "expected": want}));
                 }
+                out.impl_checks += 1;
+                if wantq != queue {
+                    out.violation(i, "GossipState queue differs from what was queued (broadcast mode)",
+                        json!({"router": format!("{:?}", m), "script": format!("{:?}", script), "queue": format!("{:?}", queue), "expected": format!("{:?}", wantq)}));
+                }
             }
 
             let mterm = match m {
@@ -556,16 +762,27 @@ fn main() {
                 }
             };
             rterms.push(format!(
-                "(RC {} {} {} {} {} {} {})",
+                "(RC {} {} {} {} {} {} {} {} {} {})",
                 mterm,
+                clist(pops.iter(), |(up, id, a)| if *up { format!("PUpd {} {}", id, a) } else { format!("PDel {}", id) }),
                 clist(deltas.iter(), delta_term),
                 clist(peers.iter(), |(a, b)| format!("({},{})", a, b)),
                 cbool(selective),
                 clist(ctable.iter(), |(t, ds)| format!("({},{})", t, pl(ds))),
-                clist(batches.iter(), |b| clist(b.iter(), delta_term)),
+                cbool(router0),
+                epoch0,
+                clist(script.iter(), |e| match e {
+                    Ev::Adv => "QAdv".to_string(),
+                    Ev::D(b) => format!("QD {}", clist(b.iter(), delta_term)),
+                    Ev::B(b) => format!("QB {}", clist(b.iter(), delta_term)),
+                    Ev::H => "QH".to_string(),
+                    Ev::Drain => "QDrain".to_string(),
+                    Ev::Set => "QSet".to_string(),
+                }),
                 clist(queue.iter(), |q| format!("({},({},({},({},({},{})))))", copt(&q.0, |x| x.to_string()), q.1, q.2, q.3, pl(&q.4), q.5))
             ));
-            rshow.push(json!({"router": format!("{:?}", m), "peers": peers, "selective": selective, "deltas": deltas, "table": ctable, "batches": batches, "queue": format!("{:?}", queue)}));
+            rshow.push(json!({"router": format!("{:?}", m), "peer_ops": format!("{:?}", pops), "peers": peers, "selective": selective, "deltas": deltas, "table": ctable,
+                              "with_router": router0, "epoch0": epoch0, "script": format!("{:?}", script), "queue": format!("{:?}", queue)}));
         }
 
         // ---------------- large batches through queue_deltas, observed at drain_outbound
@@ -599,6 +816,15 @@ fn main() {
             out.count(if few { "big batch:few keys" } else { "big batch:many keys" });
             let (router, cfg) = build_router(&shared, &m);
             let mut gs = GossipState::with_router(cfg, router);
+            // in part of the cases the outbound queue is already (almost) full of heartbeats, so the
+            // calls cross MAX_OUTBOUND_QUEUE = 10 000 (10 000 - k, exactly full, overflow by a few)
+            let pre: u64 = if rng.gen_bool(0.2) { 10_000 - rng.gen_range(0..=10) } else { 0 };
+            for _ in 0..pre {
+                gs.queue_heartbeat();
+            }
+            if pre > 0 {
+                out.count("big batch:queue pre-filled to 9990..10000");
+            }
             let mut base = 0u64;
             let mut sent: Vec<Vec<(String, u64)>> = Vec::new(); // per call: (key, tag)
             for sz in &sizes {
@@ -620,7 +846,16 @@ fn main() {
                 owners_of.insert(k.clone(), ids(&ring.get_replicas(k)).into_iter().filter(|x| *x != me).collect());
             }
             let mut got: BTreeMap<(u64, u64), Vec<u64>> = BTreeMap::new(); // (epoch, target) -> tags
-            for rm in &drained {
+            let hb = drained.iter().take_while(|rm| matches!(rm.message, GossipMessage::Heartbeat { .. })).count() as u64;
+            {
+                let others = drained.len() as u64 - hb;
+                out.impl_checks += 1;
+                if drained.len() > 10_000 || hb != pre.min(10_000u64.saturating_sub(others)) {
+                    out.violation(i, "outbound queue capacity: not exactly the newest 10 000 messages were kept",
+                        json!({"prefilled_heartbeats": pre, "queue_len": drained.len(), "heartbeats_left": hb, "batch_sizes": sizes}));
+                }
+            }
+            for rm in drained.iter().skip(hb as usize) {
                 out.impl_checks += 1;
                 match &rm.message {
                     GossipMessage::TargetedDelta { source_replica, target_replica, deltas, epoch } => {
@@ -661,6 +896,7 @@ fn main() {
             // digest per message for the model
             let mut dq: Vec<(Option<u64>, u64, u64, u64, u64, u64, u64, u64)> = drained
                 .iter()
+                .skip(hb as usize)
                 .map(|rm| {
                     let c = canon_msg(rm.target, &rm.message);
                     let cnt = c.4.len() as u64;
@@ -677,11 +913,13 @@ fn main() {
                 }
             };
             bterms.push(format!(
-                "(BG {} {} {} {} {})",
+                "(BG {} {} {} {} {} {} {})",
                 mterm,
                 clist(bkeys.iter(), |k| chex(k.as_bytes())),
                 nl(&origins),
                 nl(&sizes),
+                pre,
+                hb,
                 clist(dq.iter(), |q| format!("({},({},({},({},({},({},({},{})))))))", copt(&q.0, |x| x.to_string()), q.1, q.2, q.3, q.4, q.5, q.6, q.7))
             ));
             rshow.push(json!({"big_batches": {"router": format!("{:?}", m), "sizes": sizes, "distinct_keys": bkeys.len(), "origins": origins,
@@ -717,7 +955,7 @@ fn main() {
         out.count(&format!("vnodes:{}", match vn { 0 => "0", 1..=8 => "1-8", 9..=40 => "9-40", _ => "100-150" }));
         out.count(&format!("rf:{}", rf));
         out.count(&format!("members_final:{}", fin_members.len()));
-        out.count(&format!("ids:{}", if pool_kind < 55 { if sequential { "cluster 1..n" } else { "subset of 1..7" } } else if pool_kind < 70 { "0-based" } else { "arbitrary u64" }));
+        out.count(&format!("ids:{}", if bigb { "big-batch cluster 1..n" } else if wide { "wide cluster (63..200 nodes)" } else if pool_kind < 55 { if sequential { "cluster 1..n" } else { "subset of 1..7" } } else if pool_kind < 66 { "0-based" } else if pool_kind < 74 { "congruent mod 64 / 2^32 / 2^63" } else { "arbitrary u64" }));
         out.count(&format!("ops:{}", ops.len()));
         out.sample(json!({"vnodes": vn, "rf": rf, "init": init, "ops": format!("{:?}", ops), "keys": keys.iter().take(4).collect::<Vec<_>>(),
                           "replicas_final": stages.last().unwrap().reps.iter().take(4).collect::<Vec<_>>()}));
